@@ -61,6 +61,10 @@ func IsFlagSet(f *asn1.BitString, i int) bool {
 	b := i / 8
 	//Which bit in byte
 	p := uint(7 - (i - 8*b))
+	if b < 0 || b >= len((*f).Bytes) {
+		// A bit beyond the end of a (short) bit string received from a peer is not set.
+		return false
+	}
 	if (*f).Bytes[b]&(1<<p) != 0 {
 		return true
 	}
